@@ -222,6 +222,8 @@ class Interp:
             return {"True": True, "False": False, "None": None}[name]
         if name in _EXC_NAMES:
             return ExcType(name)
+        if name in ("open",):
+            return ExtRef(name)
         raise OutsideSubset(f"unresolved name {name} in {mod.name}")
 
     def eval_global(self, mod, name):
